@@ -23,9 +23,13 @@ impl GlobalsW {
 pub struct AllocH { pub next_id: u64 }
 impl AllocH {
     #[verifier::external_body]
-    pub fn alloc_block(&mut self, sys: &Sys, want_bytes: u64) -> (r: IoResult<Block>)
+    pub fn alloc_block(&mut self, sys: &Sys, Ghost(log): Ghost<Seq<(Seq<char>, Block)>>, Ghost(active): Ghost<Block>, want_bytes: u64) -> (r: IoResult<Block>)
         ensures
             (want_bytes == 0 || want_bytes > 1073741824) ==> r is Err,
+            // A-ALLOC-FRESH: the byte range handed out was never handed out before: it overlaps no sealed block and not the active block
+            r matches Ok(b) ==> chain_untouched_by(log, b.mmap.file, b.offset as int, b.offset + b.limit)
+                && (b.mmap.file != active.mmap.file || active.offset + active.limit <= b.offset || b.offset + b.limit <= active.offset)
+                && b.offset + b.limit <= sys.files@[b.mmap.file].len(),
             r matches Ok(b) ==> b.used == 0 && b.limit >= want_bytes && b.limit >= 10485760 && b.limit <= 0x4000_0000_0000 && b.id == old(self).next_id && final(self).next_id == b.id + 1
                 && sys.files@.contains_key(b.mmap.file) && b.offset + b.limit <= 0x7fff_ffff_ffff,
             r is Err ==> final(self).next_id == old(self).next_id,
@@ -50,12 +54,33 @@ impl Block {
     { unimplemented!() }
 }
 
+impl Block {
+    // assumed contract of Block::zero_range = what unit block_rw proves
+    #[verifier::external_body]
+    pub fn zero_range(&self, sys: &mut Sys, in_block_offset: u64, size: u64) -> (ret: IoResult<()>)
+        requires
+            old(sys).files@.contains_key(self.mmap.file),
+            self.offset + in_block_offset + size <= old(sys).files@[self.mmap.file].len(),
+            self.offset + in_block_offset + size <= 0x7fff_ffff_ffff,
+        ensures
+            final(sys).files@ == old(sys).files@.insert(self.mmap.file, write_at(old(sys).files@[self.mmap.file], self.offset + in_block_offset, Seq::new(size as nat, |i: int| 0u8))),
+            ret is Ok,
+    { unimplemented!() }
+}
+
 /// the writer's active block is inside its file and packed up to the published offset
 pub open spec fn wf_writer(b: Block, cur: u64, sys: Sys) -> bool {
     &&& sys.files@.contains_key(b.mmap.file)
     &&& cur <= b.limit && b.limit <= 0x4000_0000_0000
     &&& b.offset + b.limit <= 0x7fff_ffff_ffff
+    &&& b.offset + b.limit <= sys.files@[b.mmap.file].len()
     &&& packed_d(sys.files@[b.mmap.file], b.offset as int, b.offset + cur)
+}
+/// sealed blocks of the reader chain are inside their files and do not overlap the writable part of the active block
+pub open spec fn wf_chain(log: Seq<(Seq<char>, Block)>, b: Block, cur: u64, sys: Sys) -> bool {
+    &&& chain_untouched_by(log, b.mmap.file, b.offset + cur, b.offset + b.limit)
+    &&& forall|i: int| 0 <= i < log.len() ==> (#[trigger] log[i]).1.offset + log[i].1.used <= 0x7fff_ffff_ffff
+            && (sys.files@.contains_key(log[i].1.mmap.file) ==> log[i].1.offset + log[i].1.used <= sys.files@[log[i].1.mmap.file].len())
 }
 /// payloads of the entries in the active block
 pub open spec fn active_payloads(b: Block, cur: u64, sys: Sys) -> Seq<Seq<u8>> {
@@ -105,4 +130,82 @@ pub proof fn lemma_entry_unchanged(d: Seq<u8>, d2: Seq<u8>, a: int, b: int)
     assert(d2.subrange(a + 2, a + 2 + ml) =~= d.subrange(a + 2, a + 2 + ml));
     let sz = entry_size_d(d, a);
     assert(d2.subrange(a + 256, a + 256 + sz) =~= d.subrange(a + 256, a + 256 + sz));
+}
+
+// ---- the topic's abstract log as seen through the writer: sealed chain (this topic's entries of the reader's chain log)
+//      followed by the active block up to the published offset  (DESIGN 3.4 `view`)
+pub open spec fn chain_payloads(log: Seq<(Seq<char>, Block)>, col: Seq<char>, files: Map<int, Seq<u8>>) -> Seq<Seq<u8>>
+    decreases log.len()
+{
+    if log.len() == 0 { Seq::empty() } else {
+        let (c, b) = log.last();
+        chain_payloads(log.drop_last(), col, files)
+            + (if c == col && files.contains_key(b.mmap.file) { payloads_d(files[b.mmap.file], b.offset as int, b.offset + b.used) } else { Seq::empty() })
+    }
+}
+pub open spec fn topic_log(w: Writer, sys: Sys) -> Seq<Seq<u8>> {
+    chain_payloads(w.reader.chain_log@, w.col@, sys.files@) + active_payloads(w.current_block, w.current_offset, sys)
+}
+/// byte ranges of the sealed blocks never overlap the part of a block a writer may still write to
+pub open spec fn chain_untouched_by(log: Seq<(Seq<char>, Block)>, file: int, lo: int, hi: int) -> bool {
+    forall|i: int| 0 <= i < log.len() ==> (#[trigger] log[i]).1.mmap.file != file || log[i].1.offset + log[i].1.used <= lo || hi <= log[i].1.offset
+}
+
+/// payloads of a byte range only depend on the bytes of that range
+pub proof fn lemma_payloads_frame(d: Seq<u8>, d2: Seq<u8>, a: int, b: int)
+    requires 0 <= a, b <= d.len(), d2.len() == d.len(), forall|i: int| a <= i < b ==> d2[i] == d[i],
+    ensures payloads_d(d2, a, b) == payloads_d(d, a, b), packed_d(d, a, b) == packed_d(d2, a, b),
+    decreases b - a
+{
+    if a < b {
+        let okd = entry_ok_d(d, a) && entry_end_d(d, a) <= b;
+        let okd2 = entry_ok_d(d2, a) && entry_end_d(d2, a) <= b;
+        if a + 256 <= b {
+            assert(d2[a] == d[a] && d2[a + 1] == d[a + 1]);
+            let ml = meta_len_of(d[a], d[a + 1]);
+            if 1 <= ml <= 254 {
+                assert(d2.subrange(a + 2, a + 2 + ml) =~= d.subrange(a + 2, a + 2 + ml));
+                let sz = entry_size_d(d, a);
+                assert(entry_size_d(d2, a) == sz);
+                if a + 256 + sz <= b {
+                    assert(d2.subrange(a + 256, a + 256 + sz) =~= d.subrange(a + 256, a + 256 + sz));
+                    assert(okd == okd2);
+                    if okd { lemma_payloads_frame(d, d2, a + 256 + sz, b); }
+                } else {
+                    assert(!okd && !okd2);
+                }
+            } else { assert(!okd && !okd2); }
+        } else {
+            // fewer than 256 bytes left: neither can hold an entry that ends at or before b
+            assert(entry_ok_d(d, a) ==> entry_end_d(d, a) >= a + 256);
+            assert(entry_ok_d(d2, a) ==> entry_end_d(d2, a) >= a + 256);
+            assert(!okd && !okd2);
+        }
+    }
+}
+
+/// writes outside every sealed block of the chain leave the chain's payloads unchanged
+pub proof fn lemma_chain_frame(log: Seq<(Seq<char>, Block)>, col: Seq<char>, files: Map<int, Seq<u8>>, files2: Map<int, Seq<u8>>, file: int, lo: int, hi: int)
+    requires
+        chain_untouched_by(log, file, lo, hi),
+        files.contains_key(file), files2.contains_key(file), files2[file].len() == files[file].len(),
+        forall|f: int| f != file ==> (#[trigger] files2.contains_key(f) == files.contains_key(f) && (files.contains_key(f) ==> files2[f] == files[f])),
+        forall|i: int| 0 <= i < files[file].len() && !(lo <= i < hi) ==> #[trigger] files2[file][i] == files[file][i],
+        forall|i: int| 0 <= i < log.len() ==> (#[trigger] log[i]).1.offset + log[i].1.used <= 0x7fff_ffff_ffff && (files.contains_key(log[i].1.mmap.file) ==> log[i].1.offset + log[i].1.used <= files[log[i].1.mmap.file].len()),
+    ensures chain_payloads(log, col, files2) == chain_payloads(log, col, files)
+    decreases log.len()
+{
+    if log.len() > 0 {
+        let (c, b) = log.last();
+        let rest = log.drop_last();
+        assert forall|i: int| 0 <= i < rest.len() implies (#[trigger] rest[i]).1.mmap.file != file || rest[i].1.offset + rest[i].1.used <= lo || hi <= rest[i].1.offset by { assert(rest[i] == log[i]); }
+        assert forall|i: int| 0 <= i < rest.len() implies (#[trigger] rest[i]).1.offset + rest[i].1.used <= 0x7fff_ffff_ffff && (files.contains_key(rest[i].1.mmap.file) ==> rest[i].1.offset + rest[i].1.used <= files[rest[i].1.mmap.file].len()) by { assert(rest[i] == log[i]); }
+        lemma_chain_frame(rest, col, files, files2, file, lo, hi);
+        assert(log[log.len() - 1] == log.last());
+        if c == col && files.contains_key(b.mmap.file) {
+            if b.mmap.file == file {
+                lemma_payloads_frame(files[file], files2[file], b.offset as int, b.offset + b.used);
+            }
+        }
+    }
 }
